@@ -40,8 +40,11 @@ class C13(Check):
     max_discard = 0.7
 
     def strata(self, tier):
-        return [('S-clean', 3), ('S-fault', 3), ('S-noclear', 3), ('S-opname', 2), ('S-shared', 2), ('S-file', 1),
-                ('S-all', 2)]
+        s = [('S-clean', 3), ('S-fault', 3), ('S-noclear', 3), ('S-opname', 2), ('S-shared', 2), ('S-file', 1),
+             ('S-all', 2)]
+        if tier == 'thorough':
+            s.append(('S-fortran', 1))     # f2py builds: several models compiled to extension modules in one process
+        return s
 
     # ---------------------------------------------------------------------------------------------------
     def gen_workflow(self, rng, wid, stratum, shared=None):
@@ -104,13 +107,18 @@ class C13(Check):
             kw = {'vectorize': rng.random() < 0.6, 'in_place': rng.random() < 0.5,
                   'clear': rng.random() < clear_pref,
                   'float_precision': 'float64' if rng.random() < 0.85 else 'float32'}
+            if stratum == 'S-fortran':
+                kind = 'run'          # the f2py routine is observed through run(); its call signature is backend-specific
+                kw.update({'vectorize': False, 'float_precision': 'float64', 'backend': 'fortran',
+                           'clear': rng.random() < 0.7})
             if stratum in ('S-file', 'S-all') and rng.random() < 0.7:
                 kw['file_name'] = 'shared_fn'
             elif rng.random() < 0.3:
                 kw['file_name'] = f'wf{wid}'
             if kind == 'run':
                 dt = rng.choice([1e-3, 0.01, 0.05])
-                kw.update({'T': rng.randint(3, 12) * dt, 'dt': dt, 'solver': rng.choice(['euler', 'euler', 'heun']),
+                kw.update({'T': rng.randint(3, 12) * dt, 'dt': dt,
+                           'solver': 'euler' if stratum == 'S-fortran' else rng.choice(['euler', 'euler', 'heun']),
                            'outputs': {f'o{i}': n for i, n in enumerate(net.state_names)}})
                 ops.append({'wf': wid, 'op': 'run', 'obj': M, 'kw': kw})
             else:
